@@ -1,5 +1,6 @@
 """Shared harness-side helpers for property modules."""
 import collections
+import decimal
 import re
 import types
 
@@ -63,3 +64,140 @@ def same_classes(a, b):
             if not same_classes(d[k], getattr(b, k, None)):
                 return False
     return True
+
+
+def deep_eq(a, b):
+    """Structural equality that treats NaN as equal to itself and requires identical classes."""
+    if type(a) is not type(b):
+        return False
+    if isinstance(a, (float, decimal.Decimal)):
+        return a == b or (a != a and b != b)
+    if isinstance(a, (list, tuple, collections.deque)):
+        if len(a) != len(b):
+            return False
+        for x, y in zip(a, b):
+            if not deep_eq(x, y):
+                return False
+        return True
+    if isinstance(a, collections.ChainMap):
+        return deep_eq(a.maps, b.maps)
+    if isinstance(a, (dict, types.MappingProxyType)):
+        if len(a) != len(b):
+            return False
+        for k in a:
+            if k not in b or not deep_eq(a[k], b[k]):
+                return False
+        return True
+    if isinstance(a, (set, frozenset)):
+        return a == b
+    if hasattr(type(a), "__dataclass_fields__"):
+        for k in type(a).__dataclass_fields__:
+            if not deep_eq(getattr(a, k, None), getattr(b, k, None)):
+                return False
+        return True
+    return a == b
+
+
+def leaf_strings(T, limit=24):
+    """Valid string encodings of pool values of every leaf type occurring in T (for parse positions)."""
+    import dataclasses
+    import typing
+
+    from vf import oracle, symval, tinfo
+
+    out = []
+    seen = set()
+
+    def walk(t, tv=None, depth=0):
+        if depth > 6:
+            return
+        try:
+            ti = tinfo.info(t, tv)
+        except TypeError:
+            return
+        key = (ti.kind, repr(ti.type))
+        k = ti.kind
+        if k in symval.POOLS or k in ("ip", "path", "enum"):
+            if key in seen:
+                return
+            seen.add(key)
+            ctx, node = symval.make_plan(ti.type)
+            for v in getattr(node, "values", [])[:3]:
+                e = oracle.ref_encode(ti.type, v)
+                if isinstance(e, str) and e not in out:
+                    out.append(e)
+            return
+        if k == "literal":
+            for lv in ti.args:
+                if isinstance(lv, str) and lv not in out:
+                    out.append(lv)
+            return
+        if k in ("optional", "union", "seq", "tuple_var", "map", "chainmap"):
+            for a in ti.args:
+                walk(a, tv, depth + 1)
+        elif k == "tuple_fixed":
+            for a in ti.args:
+                if typing.get_origin(a) is typing.Unpack:
+                    a = typing.get_args(a)[0]
+                walk(a, tv, depth + 1)
+        elif k == "dataclass":
+            if key in seen:
+                return
+            seen.add(key)
+            tv2 = dict(tv or {})
+            tv2.update(ti.extra or {})
+            for n, ft, f in tinfo.dc_fields(ti.type):
+                walk(ft, tv2, depth + 1)
+        elif k == "namedtuple":
+            for n, ft in tinfo.nt_fields(ti.type):
+                walk(ft, tv, depth + 1)
+        elif k == "typeddict":
+            hints, req, opt = tinfo.td_keys(ti.type)
+            for kk in hints:
+                walk(hints[kk], tv, depth + 1)
+
+    walk(T)
+    return out[:limit]
+
+
+def key_universe(T, limit=3):
+    """Concrete dict keys for arbitrary inputs: field names, aliases, TypedDict keys of T, then strangers."""
+    import typing
+
+    from vf import tinfo
+
+    keys = []
+
+    def add(k):
+        if k not in keys:
+            keys.append(k)
+
+    def walk(t, tv=None, depth=0):
+        if depth > 4:
+            return
+        try:
+            ti = tinfo.info(t, tv)
+        except TypeError:
+            return
+        k = ti.kind
+        if k == "dataclass":
+            for n, ft, f in tinfo.dc_fields(ti.type):
+                a = f.metadata.get("alias")
+                add(a or n)
+        elif k == "typeddict":
+            hints, req, opt = tinfo.td_keys(ti.type)
+            for kk in hints:
+                add(kk)
+        elif k == "namedtuple":
+            for n, ft in tinfo.nt_fields(ti.type):
+                add(n)
+        elif k in ("optional", "union", "seq", "tuple_var", "map", "chainmap", "tuple_fixed"):
+            for a in ti.args:
+                if typing.get_origin(a) is typing.Unpack:
+                    a = typing.get_args(a)[0]
+                walk(a, tv, depth + 1)
+
+    walk(T)
+    for s in ("k0", "5", "zz"):
+        add(s)
+    return keys[:limit]
